@@ -28,6 +28,11 @@ with the vocabulary of Map2/Ops2.v and Map2/Kern2.v (continuation-passing: each 
   if x != NULL_DART_ID { B1 } else { B2 }               if negb (x =? 0) then B1 else B2   (parenthesised and followed by REST when not last)
   if map.beta_transac::<I>(t, d)? != NULL_DART_ID { B } x <- rdB I d ;; (if negb (x =? 0) then B else Ret tt) ;;; REST
   (d1, .., dk): (DartIdType, .., DartIdType)            tuple parameter: k dart parameters
+  collapse_halfcell_to_X(t, map, (a, b, c))?;           collapse_halfcell_to_X n ks a b c ;;; REST   (the callee is itself translated)
+  if x != NULL_*_ID { B }                               (if negb (x =? 0) then B else Ret tt) ;;; REST
+  let v = if x != NULL { E1? } else if y != NULL { E2? } else { NULL_VERTEX_ID };
+                                                        v <- (if negb (x =? 0) then E1 else if negb (y =? 0) then E2 else Ret 0) ;; REST
+  Ok(if x != NULL { E1? } else if ..)  /  Ok(v)         the same chain / Ret v   (kernels returning a vertex identifier: prog N)
 
 The attribute kind of `write_attribute` is the Rust type of its value; the translator tracks the anchor type of every
 variable (read/remove_attribute::<K>, `K::from(a)`). `K::from(a)` between anchor kinds is the identity on the model's
@@ -254,6 +259,9 @@ class Tr:
                 self.bad("sew arity", c)
             a = self.val(m.group(3), env)[0] + ((" " + self.val(m.group(4), env)[0]) if m.group(4) else "")
             return "%s %s" % (SEW[(m.group(1), m.group(2))], a), True
+        m = re.fullmatch(r"(collapse_halfcell_to_(?:midpoint|base))\(t, map, \((\w+), (\w+), (\w+)\)\)", c)
+        if m:
+            return "%s n ks %s" % (m.group(1), " ".join(self.val(m.group(i), env)[0] for i in (2, 3, 4))), True
         m = re.fullmatch(r"map\.remove_free_dart_transac\(t, (\w+)\)", c)
         if m:
             return "remove_dart_tx %s" % self.val(m.group(1), env)[0], True
@@ -473,10 +481,30 @@ class Tr:
             er = ERR[m.group(5)]
             return ("%s <- %s ;;\n  %s <- %s ;;\n  match %s with\n  | Some %s =>\n  match %s with\n  | Some %s =>\n  %s\n  | None => Fail %s\n  end\n  | None => Fail %s\n  end"
                     % (o1, e1, o2, e2, o1, a_, o2, b_, self.stmts(rest, env2), er, er))
-        # two-branch statement: if X != NULL { B1 } else { B2 }
-        m = re.match(r"if (\w+) != NULL_DART_ID \{", s)
+        # value-returning kernels: the chain `if X != NULL { E1? } else if Y != NULL { E2? } else { NULL_VERTEX_ID }`
+        CH = r"if (\w+) != NULL_DART_ID \{ (.+?\?) \} else if (\w+) != NULL_DART_ID \{ (.+?\?) \} else \{ NULL_VERTEX_ID \}"
+        def chain(mm, k):
+            return ("if negb (%s =? 0) then %s\n  else if negb (%s =? 0) then %s\n  else Ret 0"
+                    % (self.val(mm.group(k), env)[0], self.eff(mm.group(k + 1), env)[0], self.val(mm.group(k + 2), env)[0], self.eff(mm.group(k + 3), env)[0]))
+        m = re.fullmatch(r"Ok\(%s\)" % CH, s)
+        if m and tail and not rest:
+            return chain(m, 1)
+        m = re.fullmatch(r"let (\w+) = %s" % CH, s)
         if m:
+            v = self.fresh(m.group(1))
+            env2 = dict(env)
+            env2[m.group(1)] = (v, None)
+            return "%s <- (%s) ;;\n  %s" % (v, chain(m, 2), self.stmts(rest, env2))
+        m = re.fullmatch(r"Ok\((\w+)\)", s)
+        if m and tail and not rest and m.group(1) in env:
+            return "Ret %s" % self.val(m.group(1), env)[0]
+        # two-branch / one-branch statement: if X != NULL { B1 } [else { B2 }]
+        m = re.match(r"if (\w+) != NULL_(?:DART|VERTEX)_ID \{", s)
+        if m and not re.match(r"if \w+ != NULL_DART_ID \{ try_or_coerce!\([^;]*\); \}$", s):
             c1 = match_close(s, m.end() - 1)
+            if c1 == len(s) - 1:
+                b1 = self.stmts(split_stmts(s[m.end():c1]), env)
+                return then("(if negb (%s =? 0) then %s else Ret tt)" % (self.val(m.group(1), env)[0], b1))
             me = re.fullmatch(r"else \{(.*)\}", s[c1 + 1:].strip())
             if me:
                 b1 = self.stmts(split_stmts(s[m.end():c1]), env)
@@ -583,7 +611,7 @@ class Tr:
                     env2[nm] = self.val(c, env)
                 txts.append("(" + self.stmts(body, env2) + ")")
             return then(" ;;;\n  ".join(txts))
-        m = re.fullmatch(r"(map\..+)\?", s)
+        m = re.fullmatch(r"((?:map\.|collapse_halfcell_to_).+)\?", s)
         if m and not tail:
             c, u = self.call(m.group(1), env)
             if last and not u:
@@ -600,7 +628,10 @@ TARGETS = [
     ("process_convex_cell", "/repo/honeycomb-kernels/src/triangulation/fan.rs", "gen_fan_convex_cell"),
     ("collapse_halfcell_to_midpoint", "/repo/honeycomb-kernels/src/remeshing/collapse.rs", "gen_collapse_halfcell_to_midpoint"),
     ("collapse_halfcell_to_base", "/repo/honeycomb-kernels/src/remeshing/collapse.rs", "gen_collapse_halfcell_to_base"),
+    ("collapse_edge_to_midpoint", "/repo/honeycomb-kernels/src/remeshing/collapse.rs", "gen_collapse_edge_to_midpoint"),
+    ("collapse_edge_to_base", "/repo/honeycomb-kernels/src/remeshing/collapse.rs", "gen_collapse_edge_to_base"),
 ]
+RET = {"collapse_edge_to_midpoint": "N", "collapse_edge_to_base": "N"}
 OUT = "/verif/coq/theories/Map2/GenKern.v"
 
 
@@ -617,7 +648,7 @@ def main():
         opts = "".join(" (%s : option Sc)" % a_ for a_, kind in specs if kind == "optsc")
         opts += "".join(" (%s : list N)" % a_ for a_, kind in specs if kind == "dlist")
         defs.extend(t.aux)
-        defs.append("Definition %s (n : N) (ks : kinds) (%s : N)%s : prog unit :=\n  %s." % (gname, " ".join(darts), opts, text))
+        defs.append("Definition %s (n : N) (ks : kinds) (%s : N)%s : prog %s :=\n  %s." % (gname, " ".join(darts), opts, RET.get(f, "unit"), text))
     text = ("(** GENERATED by tools/tr_kern.py from %s -- do not edit. *)\n"
             "From Coq Require Import List NArith Bool.\nFrom HC Require Import Stm.Prog Map2.Ops2 Map2.Orbit2 Map2.Kern2.\nImport ListNotations.\nOpen Scope N_scope.\n\n"
             "Section GenKern.\nContext `{Sig}.\n\n%s\n\nEnd GenKern.\n") % (", ".join(sorted(set(p for _, p, _ in TARGETS))), "\n\n".join(defs))
